@@ -60,6 +60,13 @@ var transforms = []string{
 	"scale(-1, 1)", "translate(50%, 50%) rotate(180deg)",
 }
 
+// transforms of the wrappers of genDocument: finite, mostly regular, small numbers
+var nestTransforms = []string{
+	"rotate(10deg)", "rotate(-45deg)", "rotate(90deg)", "scale(2)", "scale(0.5, 2)", "translate(5px, 10%)", "translate(-7px, 3px)",
+	"skew(10deg, 5deg)", "matrix(1, 0.5, -0.5, 1, 3, 4)", "scale(-1, 1)", "translate(50%, 50%) rotate(180deg)", "rotate(30deg) scale(1.5)",
+	"scale(0)", "translate(0, 0)", "scale(1)",
+}
+
 var lengths = []string{"0", "0px", "1px", "2px", "3.5px", "7px", "10px", "25px", "40px", "50%", "1em", "0.1px"}
 
 func pickLen(r *vlib.Rng) string { return vlib.Pick(r, lengths) }
@@ -262,6 +269,7 @@ func genDocument(r *vlib.Rng) genDoc {
 	nIDs := r.Range(2, len(idPool))
 	pool := idPool[:nIDs]
 	rich := r.Chance(3, 5)
+	tfNests := r.Chance(1, 2)
 	var body strings.Builder
 	headN := 0
 	for p := 0; p < nPages; p++ {
@@ -271,7 +279,39 @@ func genDocument(r *vlib.Rng) genDoc {
 		} else {
 			body.WriteString(`<section class="pb">`)
 		}
-		for i, n := 0, r.Range(0, 7); i < n; i++ {
+		// transformed wrappers (nesting <= 3) around runs of 0-3 of the following items: ids,
+		// links and headings come before, inside and after nested transformed boxes
+		var open []int
+		closeDone := func() {
+			for len(open) > 0 && open[len(open)-1] <= 0 {
+				open = open[:len(open)-1]
+				body.WriteString("</div>\n")
+				if len(open) > 0 {
+					open[len(open)-1]--
+				}
+			}
+		}
+		nItems := r.Range(0, 7)
+		if tfNests && nItems < 4 {
+			nItems += 3
+		}
+		for i, n := 0, nItems; i < n; i++ {
+			if tfNests && len(open) < 3 && r.Chance(1+len(open), 4) {
+				st := "transform:" + vlib.Pick(r, nestTransforms)
+				if r.Chance(1, 3) {
+					st += fmt.Sprintf(";transform-origin:%s %s", pickLen(r), pickLen(r))
+				}
+				if r.Chance(1, 4) {
+					st += vlib.Pick(r, []string{";display:inline-block", ";position:relative;left:3px", ";float:left", ";padding:2px;border:1px solid"})
+				}
+				fmt.Fprintf(&body, `<div style="%s">`, st)
+				open = append(open, r.Range(0, 3))
+				g.Tags["transform-nest"] = true
+				if len(open) > 1 {
+					g.Tags["transform-nested"] = true
+				}
+				closeDone()
+			}
 			switch k := r.Intn(10); {
 			case k <= 2: // heading
 				lvl := r.Range(1, 6)
@@ -383,6 +423,13 @@ func genDocument(r *vlib.Rng) genDoc {
 					body.WriteString("<p>plain text</p>\n")
 				}
 			}
+			if len(open) > 0 {
+				open[len(open)-1]--
+				closeDone()
+			}
+		}
+		for range open {
+			body.WriteString("</div>\n")
 		}
 		body.WriteString("</section>\n")
 		g.Pages = append(g.Pages, items)
